@@ -45,7 +45,13 @@
 (*                                                                         *)
 (* CacheNested = TRUE turns on a code model in which the nested lookup     *)
 (* memoizes what it resolved (span.Data.Set(path, value)); it exists only  *)
-(* to show that the invariants bite (MC_WireFields_cex.cfg must FAIL).     *)
+(* to show that the invariants bite (MC_WireFields_cex.cfg, run with       *)
+(* MCWireFieldsQ, must FAIL on C20ExactlyClient; no stage uses it).        *)
+(*                                                                         *)
+(* Values are not in the model: the harness reports a client name only if  *)
+(* the forwarded value is exactly the client's (type family and bits) and  *)
+(* anything else under a tag (ALTERED:/LOST:/DUP:/FOREIGN:) that is in no  *)
+(* state of this specification.                                            *)
 (***************************************************************************)
 EXTENDS Integers, FiniteSets, Sequences, TLC, Json
 
@@ -60,6 +66,7 @@ CONSTANTS Spans,        \* span ids (strings)
           IngestPaths,  \* subset of {"msgp", "umsg", "map"}
           Crate,        \* Spans -> client sample rate (0 = none sent)
           Variants,     \* value-pool variants (harness only)
+          DecideHows,   \* what makes the worker decide: "timer" (SendDelay / TraceTimeout expiry), "eject" (memory pressure)
           CacheNested
 
 VARIABLES sampler, cfg, path, vs, client,          \* inputs, fixed after Init
@@ -120,7 +127,7 @@ Ingest(s) ==
   /\ act' = [name |-> "Ingest", s |-> s]
   /\ UNCHANGED <<meta, decision, sent>> /\ Fixed
 
-\* ---- decision: CollectorWorker.makeDecision ----
+\* ---- decision: CollectorWorker.makeDecision, reached from sendExpiredTracesInCache (ticker) or sendTracesEarly ----
 KeysFor(s) == IF s = Root THEN sampler.all ELSE sampler.nonroot
 
 \* Payload.MemoizeFields(keys): skip what is memoized or known missing, look the rest up in msgpData
@@ -140,9 +147,9 @@ ReadEffect(s, m) == IF CacheNested /\ sampler.nested
 Decide ==
   /\ decision = "none"
   /\ \E s \in Spans : stage[s] = "buf"
-  /\ \E keep \in BOOLEAN :
+  /\ \E keep \in BOOLEAN, how \in DecideHows :
        /\ decision' = IF keep THEN "keep" ELSE "drop"
-       /\ act' = [name |-> "Decide"]
+       /\ act' = [name |-> "Decide", how |-> how]
   /\ memo' = [s \in Spans |-> IF stage[s] = "buf" THEN ReadEffect(s, MemoAfter(s)) ELSE memo[s]]
   /\ missing' = [s \in Spans |-> IF stage[s] = "buf" THEN MissingAfter(s) ELSE missing[s]]
   /\ UNCHANGED <<stage, meta, sent>> /\ Fixed
@@ -223,7 +230,7 @@ MissingSound == \A s \in Spans : missing[s] \cap Data(s) = {}
 
 \* the sampler's reads (and its verdict) change nothing on the wire of any span
 C20ReadsArePure == [][act'.name = "Decide" => \A s \in Spans : Wire(s)' = Wire(s)]_vars
-\* nothing is ever taken off the wire of a live span, and client fields never change afterwards
+\* nothing is ever taken off the wire of a live span
 C20Monotone == [][\A s \in Spans : (Live(s) /\ Live(s)') => Wire(s) \subseteq Wire(s)']_vars
 
 Hid == [sampler |-> sampler.id, samplerAllSet |-> sampler.all, samplerNonRootSet |-> sampler.nonroot, cfg |-> cfg, path |-> path, vs |-> vs,
